@@ -43,7 +43,7 @@ def make_link(audio_root):
 
 
 class GraphGen:
-    def __init__(self, seed, p_opt=0.5, p_share=0.5, size=2, audio_root=None, geom_types=None, hostile=False, p_outside=0.0, p_id_reuse=0.0):
+    def __init__(self, seed, p_opt=0.5, p_share=0.5, size=2, audio_root=None, geom_types=None, hostile=False, p_outside=0.0, p_id_reuse=0.0, p_twin=0.0):
         from soundevent import data
 
         self.data = data
@@ -56,6 +56,8 @@ class GraphGen:
         self.hostile = hostile
         self.p_outside = p_outside
         self.n_outside = 0
+        self.p_twin = p_twin             # an object equal in content to an earlier one, with its own identifier
+        self.n_twins = 0
         self.p_id_reuse = p_id_reuse     # identifiers are unique per kind of object only: reuse one across kinds
         self.n_id_reused = 0
         self._ids = {}
@@ -110,6 +112,11 @@ class GraphGen:
     def pick(self, pool, make, p=None):
         if pool and self.rng.random() < (self.p_share if p is None else p):
             return self.rng.choice(pool)
+        if pool and self.p_twin and self.rng.random() < self.p_twin and hasattr(pool[0], "uuid"):
+            obj = self.rng.choice(pool).model_copy(update={"uuid": uuid.UUID(int=self.rng.getrandbits(128), version=4)})
+            self.n_twins += 1
+            pool.append(obj)
+            return obj
         obj = make()
         pool.append(obj)
         return obj
